@@ -47,6 +47,7 @@ def base_env(mode, thash, extra=None):
     env["NUCS_REPO"] = REPO
     env["NUCS_VERIF"] = "1"
     env["OMP_NUM_THREADS"] = env["NUMBA_NUM_THREADS"] = "1"
+    env["VERIF_NBCACHE_J"] = os.path.join(WORK, "nbcache", thash)
     if mode == "I":
         env["NUMBA_DISABLE_JIT"] = "1"
     else:
